@@ -404,6 +404,31 @@ Definition dy_tracking_b (c : codec) (o : origin) (w : wire) : bool :=
   | _, _ => false
   end.
 
+(* The harness's claim about where the wire came from, checked as part of the
+   correspondence: an honest origin means the bytes ARE what the model's mint
+   produces for that codec, instant and payload. *)
+Definition origin_wire_ok (o : origin) (w : wire) : bool :=
+  match o, w with
+  | OSession c' t0 a, WToken t => token_eqb t (mint_session c' t0 a)
+  | OTracking arr c' t0 tr, WToken t => token_eqb t (mint_tracking arr c' t0 tr)
+  | OOther, _ => true
+  | _, WGarbage => false
+  end.
+(* the closure's side conditions alone (the real codec DID mint the honest
+   wires, whether or not its output equals the model's mint) *)
+Definition in_closure_session (c : codec) (o : origin) (w : wire) : bool :=
+  match o with
+  | OSession c' t0 _ => (codec_eqb c' c || negb (codec_id_eqb c' c)) && mint_time_okb c' t0
+  | OTracking _ _ _ _ => true
+  | OOther => match w with WToken t => negb (key_eqb (tk_key t) (c_key c)) || negb (tk_intact t) | WGarbage => true end
+  end.
+Definition in_closure_tracking (c : codec) (o : origin) (w : wire) : bool :=
+  match o with
+  | OTracking _ c' _ _ => codec_eqb c' c || negb (codec_id_eqb c' c)
+  | OSession _ _ _ => true
+  | OOther => match w with WToken t => negb (key_eqb (tk_key t) (c_key c)) || negb (tk_intact t) | WGarbage => true end
+  end.
+
 (* boolean conclusion of C16_session_only_if_minted + C16_claims_exact for an
    ACCEPTED wire: it was minted by this very codec, at t0 with
    sec t0 <= sec now < sec (t0 + max_age), and what the application sees is
@@ -459,9 +484,16 @@ Definition mintcase_agree (c : mintcase) : bool := wire_eqb (mint_model c) (mi_w
 (* spec on the implementation's token: subject and attributes are exactly the assertion's *)
 Definition mintcase_spec (c : mintcase) : bool :=
   match mi_what c, mi_wire c with
-  | PSession a, WToken t => String.eqb (tk_sub t) (subject_of a) && attrs_exact_b a (tk_attrs t)
+  | PSession a, WToken t =>
+      String.eqb (tk_sub t) (subject_of a) && attrs_exact_b a (tk_attrs t)
+      && optZ_eq (tk_iat t) (omit0 (sec (mi_t0 c)))
+      && optZ_eq (tk_exp t) (omit0 (sec (mi_t0 c + c_max_age (with_max_age (session_codec_of (mi_opts c)) (mi_max_age c)))))
+      && tk_session_marker t && negb (tk_request_marker t)
   | PTracking tr, WToken t =>
       String.eqb (tk_sub t) (tr_index tr) && String.eqb (tk_req_id t) (tr_req_id tr) && String.eqb (tk_uri t) (tr_uri tr)
+      && optZ_eq (tk_iat t) (Some (sec (mi_t0 c)))
+      && optZ_eq (tk_exp t) (Some (sec (mi_t0 c + c_max_age (with_max_age (tracking_codec_of (mi_mid c) (mi_opts c)) (mi_max_age c)))))
+      && tk_request_marker t && negb (tk_session_marker t)
   | _, _ => false
   end.
 Definition check_mintcases := check_cases mintcase_agree mintcase_spec.
@@ -487,6 +519,7 @@ Definition dc_codec (c : deccase) : codec :=
   else with_max_age (tracking_codec_of (dc_mid c) (dc_opts c)) (dc_max_age c).
 Definition stage_of {A} (o : outcome A) : Z := match o with Ok _ => 0 | Err n => n | Panic => 99 end.
 Definition deccase_agree (c : deccase) : bool :=
+  origin_wire_ok (dc_origin c) (dc_wire c) &&
   if dc_session c then
     (stage_of (decode_session_o (dc_codec c) (dc_now c) (dc_wire c)) =? dc_stage c)
     && match require_account (session_cookie_name (dc_opts c)) (dc_codec c) (dc_now c) [(dc_cookie c, dc_wire c)] with
@@ -504,12 +537,12 @@ Definition deccase_agree (c : deccase) : bool :=
    acceptance implies "minted by this codec, unexpired, claims exact" *)
 Definition deccase_spec (c : deccase) : bool :=
   if dc_session c then
-    if dy_session_b (dc_codec c) (dc_origin c) (dc_wire c) && dc_ran c
+    if in_closure_session (dc_codec c) (dc_origin c) (dc_wire c) && dc_ran c
     then session_accept_ok (dc_codec c) (dc_now c) (dc_origin c) (dc_sub c) (dc_attrs c)
          && String.eqb (dc_cookie c) (session_cookie_name (dc_opts c))
     else true
   else
-    if dy_tracking_b (dc_codec c) (dc_origin c) (dc_wire c) && dc_ran c
+    if in_closure_tracking (dc_codec c) (dc_origin c) (dc_wire c) && dc_ran c
     then tracking_accept_ok (dc_codec c) (dc_now c) (dc_origin c)
            {| tr_index := dc_sub c; tr_req_id := dc_id c; tr_uri := dc_uri c |}
     else true.
